@@ -7,6 +7,9 @@ from .util import unfrac
 def replay(spec):
     import warnings
     warnings.simplefilter("ignore")
+    if "with_delay" not in spec:
+        from . import ssa
+        return ssa.replay(spec)          # obligations of the event loops (init / exit / record facets)
     from bioscrape.types import Model, Volume
     from bioscrape.simulator import py_simulate_model, ModelCSimInterface, SafeModelCSimInterface
     from bioscrape.random import py_seed_random
